@@ -23,7 +23,7 @@ BUDGET = {"quick": {"shards": 8, "examples": 250}, "thorough": {"shards": 16, "e
 VALUES = G.IDENT_T + G.UNQ_T + G.VAR_T + G.BRACKET_T + G.QUOTED_T + [
     '""', '"a\\"b@"', '"\\"@\\""', "x", "1", '"x"', '" lead@"', '"trail@ "', 'a@\\"', '\\"@', '"a@\\\\"', "a\\;b@", '"#[[@"',
     '":field: @"', '"*@*"', "ON", "[[]]", '"@\\n"',
-    "m\u00b2@", '"\u2026@"', "\u2122@", "\ufb01@", "\uff38@", "Ns@::", '"My Lib@::"', "a@:", '"::"', "::", "`@`", "*@", "|@|", '"@\\\\"']
+    '"lit\ttab@"', '"a\t\tb @"', "[[x\t@]]", "m\u00b2@", '"\u2026@"', "\u2122@", "\ufb01@", "\uff38@", "Ns@::", '"My Lib@::"', "a@:", '"::"', "::", "`@`", "*@", "|@|", '"@\\\\"']
 
 
 def strategy(tier):
@@ -37,7 +37,7 @@ def strategy(tier):
     p = G.Profile(kinds={"set", "option", "func", "block", "generic", "class", "attr", "member", "test", "section"},
                   weights={"set": 4, "option": 4, "func": 2, "block": 2, "generic": 1, "class": 1, "attr": 1, "member": 1, "test": 1, "section": 1},
                   p_doc_mostly=True, set_values=vals, doc=doc,
-                  option_help=st.sampled_from(['"Help @"', "HELP@", '"help: with colon @"', '"he said \\"@\\""', "${help@}",
+                  option_help=st.sampled_from(['"Help\twith a tab @"', '"Help @"', "HELP@", '"help: with colon @"', '"he said \\"@\\""', "${help@}",
                                                '""', "[[bracket help @]]"]),
                   max_items=6 if tier == "quick" else 10, depth=2, dangling=False, groups=False, moddoc=False, dups=True)
     return st.fixed_dictionaries({"module": G.module(p), "layout": G.layout_choices(24), "twins": st.booleans(),
